@@ -74,3 +74,6 @@ Fixpoint simple_paths (fuel : nat) (es : list (Z * Z * Z * bool)) (cur tgt : Z) 
   end.
 Definition admissible_exists (es : list (Z * Z * Z * bool)) (nodes : nat) (src tgt : Z) (via avoid : list Z) : bool :=
   existsb (path_ok es src tgt via avoid) (simple_paths (S nodes) es src tgt []).
+
+(* negating a sequence: the members' inverses in REVERSE order (TransformSequence.__neg__) *)
+Definition neg_seq {P} (inv : (P -> P) -> (P -> P)) (fs : list (P -> P)) : list (P -> P) := map inv (rev fs).
